@@ -806,7 +806,13 @@ class TextXMetaModel(DebugPrinter):
             if callback:
                 callback(other_model)
 
+        cached_before = None
         if not model:
+            if is_main_model and hasattr(self, "_tx_model_repository"):
+                # Remember what the global repo holds before this load.
+                cached_before = set(
+                    self._tx_model_repository.all_models.filename_to_model
+                )
             # Read model from file
             if not model_str:
                 with open(file_name, encoding=encoding) as f:
@@ -821,8 +827,17 @@ class TextXMetaModel(DebugPrinter):
                 is_main_model=is_main_model,
             )
 
-        for p in self._model_processors:
-            p(model, self)
+        try:
+            for p in self._model_processors:
+                p(model, self)
+        except:  # noqa
+            if cached_before is not None:
+                # The load failed: models loaded by it must not stay cached
+                # in the global repo (models cached before are kept).
+                all_models = self._tx_model_repository.all_models.filename_to_model
+                for key in [k for k in all_models if k not in cached_before]:
+                    del all_models[key]
+            raise
 
         return model
 
